@@ -152,7 +152,12 @@ theorem loadSpikeAttributes_mem (ns : Nat) (d : Dir) :
         exact tail attrs h (by rintro ⟨h1, h2, -⟩; rw [hm] at h1; injection h1 with h1; subst h1; exact h2 hskip)
       · next hskip =>
         split at h
-        · cases h
+        · next hshape0 =>
+          refine tail attrs h ?_
+          rintro ⟨-, -, h3, h4⟩
+          subst h3
+          rw [hshape0] at h4
+          simp at h4
         · next k ks hshape =>
           split at h
           · next hk =>
